@@ -317,7 +317,8 @@ Proof.
   intros H H1 H2. destruct l1 as [|c l1]; [contradiction|]. clear H1.
   destruct l1 as [|d l1].
   - destruct l2 as [|e l2]; [contradiction|]. cbn [app] in H. cbn [slot] in *.
-    destruct (beqb c LOGS) eqn:EL; [reflexivity|]. cbn [ref_slot] in H. now rewrite H, !orb_true_r.
+    destruct (beqb c LOGS) eqn:EL; [reflexivity|]. cbn [ref_slot] in *. rewrite H.
+    destruct (beqb c PACKED); reflexivity.
   - cbn [app] in H. cbn [slot] in *. destruct (beqb c LOGS) eqn:EL.
     + destruct l1 as [|e l1].
       * destruct l2 as [|e l2]; [contradiction|]. cbn [app ref_slot] in *. now rewrite H.
@@ -342,8 +343,9 @@ Proof.
   intros H. destruct (guard_sound n H) as [Hb [Hc Hs]].
   unfold path_ok, log_path. rewrite logs_val.
   change ([108;111;103;115] ++ [47] ++ n) with ([108;111;103;115] ++ 47 :: n).
-  rewrite split_app, mem_app, Hb, forallb_app, Hc.
-  change (mem 92 [108;111;103;115]) with false.
+  assert (Hm : mem 92 ([108;111;103;115] ++ 47 :: n) = false).
+  { rewrite mem_app. change (mem 92 (47 :: n)) with ((92 =? 47) || mem 92 n). now rewrite Hb. }
+  rewrite split_app, Hm, forallb_app, Hc.
   change (split_on 47 [108;111;103;115]) with [[108;111;103;115]].
   assert (Hl : comp_ok [108;111;103;115] = true) by reflexivity.
   cbn [forallb]. rewrite Hl. cbn [orb negb andb app].
@@ -378,7 +380,7 @@ Proof.
     destruct (pop && under refsDir n) eqn:E; [|contradiction].
     apply andb_true_iff in E as [Ep _]. specialize (Hpop Ep).
     apply in_app_or in Hq as [Hq|[<-|[]]].
-    - eapply path_ok_parent; eauto. now apply valid_path_ok.
+    - apply (path_ok_parent n q); [now apply valid_path_ok|assumption].
     - now apply valid_path_ok. }
   destruct o; cbn [touched guarded] in *.
   - destruct Hin as [<-|[]]. right. apply valid_path_ok. auto.
@@ -397,7 +399,7 @@ Proof.
     destruct (pop && under refsDir n); [destruct Hin as [<-|[]]; now left|contradiction].
   - destruct Hin as [<-|[]]. right. apply log_path_ok. auto.
   - specialize (Hg eq_refl). destruct Hin as [<-|[<-|[]]]; right.
-    + unfold dir_of. eapply path_ok_parent; [apply log_path_ok; eassumption|].
+    + unfold dir_of. apply (path_ok_parent (log_path n)); [now apply log_path_ok|].
       apply last_in. apply parents_log_nonempty.
     + now apply log_path_ok.
   - destruct Hin as [<-|[]]. right. apply log_path_ok. auto.
